@@ -7,6 +7,12 @@ CHECKS = {
  "C14": ("exploration", "exhaustive bounded enumeration of script byte strings and template mutants against an independent tokenizer/classifier",
          "Every byte string up to length 2/3, every string up to length 4/5 over an opcode alphabet and every single/double mutation of each standard template is run through every inspection query; totality and the classification rules are checked on each. Exhaustive within the bound, nothing sampled.",
          "Independent reference tokenizer/template classifier in internal/props/c14.go; trusted: Go runtime, encoding/json.", "DESIGN.md §4 C14"),
+ "C01": ("exploration", "exhaustive bounded enumeration of transaction structures and byte strings against a reference wire codec (struct->bytes->struct and bytes->struct->bytes)",
+         "Every structure of a boundary-valued product space and every string of the listed string spaces is pushed through all serialisers/decoders and compared field-for-field and byte-for-byte with an independent reference codec; exhaustive within the bound.",
+         "Reference codec internal/ref/txref (written from the format description, BIP-239); trusted: crypto/sha256.", "DESIGN.md §4 C01"),
+ "C09": ("fault_enumeration", "exhaustive enumeration of truncations, bit flips and adversarial length/count claims at every field, executed in isolated single-threaded child processes with allocation accounting and death/hang attribution",
+         "Every truncation point, every bit flip and every length/count field position carrying each adversarial claim (up to 2^64-1), plus short-alphabet strings and a product of JSON documents, through every decoding entry point; each call must return, report consumption <= supplied and allocate proportionally to the input.",
+         "Allocation measured with runtime.MemStats.TotalAlloc in a single-threaded child under RLIMIT_AS; deaths attributed through a progress marker and reproduced twice.", "DESIGN.md §4 C09"),
 }
 
 PENDING_REASON = "check not built yet in this round (planned, see DESIGN.md §4); not claimed until its exhaustive check exists and is quiet on the unchanged tree"
